@@ -12,7 +12,10 @@
 typedef struct BucketInfo { size_t bucket; size_t bucketIndex; size_t bucketCapacity; } BucketInfo;
 typedef struct CV { size_t firstBucketShift_; size_t firstBucketLen_; } CV;
 _Bool nondet_bool(void); size_t nondet_size_t(void);
-#define MAXIDX (((size_t)1) << 47)                       /* kMaxVectorSize bound: indices below 2^47 */
+#ifndef IDXBITS
+#define IDXBITS 47
+#endif
+#define MAXIDX (((size_t)1) << IDXBITS)                  /* indices below 2^IDXBITS (47 = kMaxVectorSize bound) */
 #define L(v) ((v)->firstBucketLen_)
 /* (written without a negative shift distance: contract clauses are checked for undefined shifts without regard to the guard) */
 #define CAP_(v, b) ((b) == 0 ? L(v) : ((L(v) << ((b) & 63)) >> 1))        /* b < 64 wherever it matters; the mask keeps the shift defined in every evaluation */
@@ -58,7 +61,7 @@ static size_t G_alloc(size_t n) { return 1; }
 /* single index (push_back / emplace_back): the growth that reserved `index` prepares bucket k  <=>  index is the trigger of bucket k-1 */
 void CV_allocAsNecessary_one(const CV* self, BucketInfo binfo, size_t index)
 __CPROVER_requires(CVOK(self) && index < MAXIDX && binfo.bucket < 48 && binfo.bucketCapacity == CAP_(self, binfo.bucket) && binfo.bucketIndex < binfo.bucketCapacity && index == START_(self, binfo.bucket) + binfo.bucketIndex)
-__CPROVER_requires(g_b >= 1 && g_b + self->firstBucketShift_ <= 60 && !g_single_alloc)   /* START(g_b) does not overflow */
+__CPROVER_requires(g_b >= 1 && g_b <= 60 && g_b + self->firstBucketShift_ <= 60 && !g_single_alloc)   /* START(g_b) does not overflow */
 /* (the single-index path sizes the new bucket as twice the current one: exact for b >= 1, generous by 2x when coming from bucket 0) */
 __CPROVER_ensures(g_single_alloc ==> (index == TRIG(self, g_b - 1) && g_single_cap >= CAP_(self, g_b) && g_single_cap <= 2 * CAP_(self, g_b)))
 __CPROVER_ensures((index == TRIG(self, g_b - 1)) ==> (g_single_alloc || g_saw_nonnull))
@@ -70,7 +73,7 @@ void CV_allocAsNecessary_range(const CV* self, BucketInfo binfo, ssize_t rangeLe
 __CPROVER_requires(CVOK(self) && rangeLen >= 1 && index < MAXIDX && index + (size_t)rangeLen < MAXIDX)
 __CPROVER_requires(binfo.bucket < 48 && binfo.bucketCapacity == CAP_(self, binfo.bucket) && binfo.bucketIndex < binfo.bucketCapacity && index == START_(self, binfo.bucket) + binfo.bucketIndex)
 __CPROVER_requires(bend.bucket < 48 && bend.bucketCapacity == CAP_(self, bend.bucket) && bend.bucketIndex < bend.bucketCapacity && index + (size_t)rangeLen == START_(self, bend.bucket) + bend.bucketIndex)
-__CPROVER_requires(g_b >= 1 && g_b + self->firstBucketShift_ <= 60 && !g_probe && !g_assign && g_probe_n == 0 && g_assign_n == 0)
+__CPROVER_requires(g_b >= 1 && g_b <= 60 && g_b + self->firstBucketShift_ <= 60 && !g_probe && !g_assign && g_probe_n == 0 && g_assign_n == 0)
 /* responsibility: bucket g_b is prepared by this growth  <=>  the trigger index of bucket g_b - 1 is one of the indices it reserved */
 __CPROVER_ensures(g_assign == (index <= TRIG(self, g_b - 1) && TRIG(self, g_b - 1) < index + (size_t)rangeLen))
 /* the sizing pass and the assignment pass agree, visit a bucket at most once, and use the bucket's capacity */
